@@ -122,6 +122,12 @@ func genValue(r *Rand, o *TextOpts) ValueT {
 		if !o.Musical && r.Chance(1, 10) {
 			v.Num = Pick(r, []string{"0", "00", "18446744073709551616", "99999999999999999999", "4294967296"})
 		}
+		if !o.Musical && r.Chance(1, 8) {
+			// fractions at the edges of 32/64-bit ranges
+			v.HasDenom = true
+			v.Denom = Pick(r, EdgeInts)
+			v.Num = Pick(r, append([]string{"1", "2", "3"}, EdgeInts...))
+		}
 		if !o.Musical && v.HasDenom && r.Chance(1, 10) {
 			v.Denom = Pick(r, []string{"0", "000"})
 		}
